@@ -117,3 +117,21 @@ Definition det_run (c : val) : val :=
                         else if vI (vnth 0 ov) =? 10 then (s, out ++ [VL [VI 0; enc_state s]])
                         else let (s', code) := step s (dec_op ov) in (s', out ++ [VL [vNat code; enc_state s']]))
                      (vL (vnth 2 c)) (init_state p tokens, []))).
+
+(* ---------- C05: block processing must return normally ---------- *)
+(* outcome codes of the harness: 0 ok, 1 error, 2 panic, 3 did not return (watchdog) *)
+Definition k_c05_begin : val := k15 [67;48;53;47;98;101;103;105;110;45;98;108;111;99;107;45;100;105;100;45;110;111;116;45;99;111;109;112;108;101;116;101].   (* C05/begin-block-did-not-complete *)
+Definition k_c05_end : val := k15 [67;48;53;47;101;110;100;45;98;108;111;99;107;45;100;105;100;45;110;111;116;45;99;111;109;112;108;101;116;101].           (* C05/end-block-did-not-complete *)
+Definition mon_block_codes (begin_tag end_tag : Z) (ops outs : list val) : val :=
+  VL (snd (fold_left
+    (fun (acc : nat * list val) (ov : val) =>
+       let i := fst acc in
+       let code := vI (vnth 0 (nth i outs (VL []))) in
+       (S i, snd acc ++
+             (if (vI (vnth 0 ov) =? begin_tag) && negb (code =? 0) then [VL [k_c05_begin; VI (Z.of_nat i); VI code]]
+              else if (vI (vnth 0 ov) =? end_tag) && negb (code =? 0) then [VL [k_c05_end; VI (Z.of_nat i); VI code]]
+              else [])))
+    ops (O, []))).
+Definition mon_C05_hub (c impl : val) : val := mon_block_codes 5 6 (vL (vnth 2 c)) (vL impl).
+Definition mon_C05_votes (c impl : val) : val := mon_block_codes (-1) 2 (vL c) (vL impl).
+Definition mon_C05_oracle (c impl : val) : val := mon_block_codes (-1) 3 (vL (vnth 1 c)) (vL impl).
